@@ -68,6 +68,10 @@ class JobTimeout(BaseException):
     pass
 
 
+def JOB_TIMEOUT():
+    return 90 if tier() == "quick" else 900
+
+
 def _alarm(signum, frame):
     raise JobTimeout()
 
@@ -87,10 +91,10 @@ def with_timeout(fn, seconds, *a):
 
 def run_sym(job):
     try:
-        return with_timeout(_run_sym, job[5].get("job_timeout_s", 240), job)
+        return with_timeout(_run_sym, job[5].get("job_timeout_s", JOB_TIMEOUT()), job)
     except JobTimeout:
         st = symx.Stats().as_dict()
-        st.update(name=f"{job[1]}|{job[2]}", cexs=[], samples=[], reach={"end": 1}, notes=[f"job timed out after {job[5].get('job_timeout_s', 240)} s: counted as inconclusive"], hashes=[], job=list(job), wall=float(job[5].get("job_timeout_s", 240)))
+        st.update(name=f"{job[1]}|{job[2]}", cexs=[], samples=[], reach={"end": 1}, notes=[f"job timed out after {job[5].get('job_timeout_s', JOB_TIMEOUT())} s: counted as inconclusive"], hashes=[], job=list(job), wall=float(job[5].get("job_timeout_s", JOB_TIMEOUT())))
         st["truncated"] = 1
         return st
 
@@ -302,6 +306,10 @@ def plan(pid, tr, sd):
             ]
             if tr == "thorough":
                 hs += [[("set", k, "view"), ("setc", k, "handle"), ("grow",), ("set", k + 1, "handle")] for k in range(3)]
+            if wmode.has_string(t):
+                # strings: shorter value, empty value, full-length value again -- each must read back exactly
+                hs.append([("sets", 0, "handle"), ("sets", 0, "view"), ("sets", 0, "handle")])
+                hs.append([("sets", 1, "view"), ("grow",), ("sets", 1, "handle"), ("sets", 2, "view")])
             for k, h in enumerate(hs):
                 jobs.append((pid, "c10", label, t, gens[0], dict(pls[(i + k) % 2], history=h)))
         elif pid == "C11":
